@@ -1,5 +1,6 @@
 """Shared helpers for the framing checks (C02, C10, C13, C19): scripted sources, the `frame` request."""
 import io
+import os
 import socket
 import types
 
@@ -103,7 +104,42 @@ def make_source(kind, r, chunks):
         return ScriptedSocket(chunks), ({"buffer_read_size_bytes": r} if r > 0 else {})
     if kind == "pipe":
         return ScriptedPipe(chunks), ({"buffer_read_size_bytes": r} if r > 0 else {})
+    if kind == "gzip":
+        # a compressed packet file opened with `gzip.open`: a binary file object that yields the decompressed bytes
+        import gzip, tempfile, os
+        fd, path = tempfile.mkstemp(suffix=".gz")
+        os.close(fd)
+        with open(path, "wb") as fh:
+            fh.write(gz_bytes(data))
+        src = gzip.open(path, "rb")
+        _TEMP_PATHS.append(path)
+        return src, ({"buffer_read_size_bytes": r} if r > 0 else {})
     raise ValueError(kind)
+
+
+_TEMP_PATHS = []
+
+
+def gz_bytes(data):
+    import gzip
+    return gzip.compress(data, compresslevel=6, mtime=0)
+
+
+def gz_stream(rng):
+    """A packet stream of compressible packets one of whose inner packet boundaries lies exactly at the size the stream
+    has on disk once gzip-compressed (a length taken from the file system instead of from the stream ends there)."""
+    def pkt(n, apid):
+        bits = f"{0:03b}{0:01b}{0:01b}{apid:011b}{3:02b}{0:014b}{n - 1:016b}"
+        return int(bits, 2).to_bytes(6, "big") + bytes(n)
+    tail = [pkt(rng.randrange(200, 900), 9) for _ in range(rng.randrange(2, 5))]
+    first = 40
+    for _ in range(40):
+        data = pkt(first - 6, 9) + b"".join(tail)
+        size = len(gz_bytes(data))
+        if size == first:
+            return data
+        first = max(size, 8)
+    return None
 
 
 def frame_line(skip, trim, kind, r, chunks):
@@ -132,8 +168,13 @@ def _run_frame_once(skip, trim, kind, r, chunks, show_progress):
                 if len(out) > cap:
                     return "nonterm"
     finally:
-        if kind == "socket":
+        if kind in ("socket", "gzip"):
             src.close()
+        while _TEMP_PATHS:
+            try:
+                os.unlink(_TEMP_PATHS.pop())
+            except OSError:
+                pass
     return "pkts" + "".join(" " + hx(p) for p in out)
 
 
@@ -180,8 +221,13 @@ def _run_frame_headers_only(skip, kind, r, chunks, combine=False):
             if len(out) > total // 7 + 3:
                 return "nonterm"
     finally:
-        if kind == "socket":
+        if kind in ("socket", "gzip"):
             src.close()
+        while _TEMP_PATHS:
+            try:
+                os.unlink(_TEMP_PATHS.pop())
+            except OSError:
+                pass
     return "pkts" + "".join(" " + hx(p) for p in out)
 
 
